@@ -49,6 +49,21 @@ Hardening pass 2 (HARDENING2.md classes E, F):
      of make_xy_grid / fftrange / forward_ft_unit (shifted matrix-DFT / chirp-Z propagations, psd, render_synthetic_surface, other
      Interferograms' latcal / recenter / pad, in-place edits of returned grids, precision 32) on the axis lengths of the object; the
      invariants after it are those of a read.
+
+Hardening pass 3 (HARDENING3.md classes G, H, J):
+  G  one history in four runs IN OTHER UNITS: heights * s (s in 1e-12 .. 1e12) and lateral unit * K (K in 1e-9 .. 1e9), fill / pad values and
+     plate scales converted with them, two in five of those on top of a LARGE PISTON (1e6 / 1e9 in units of the base data: |mean| / std of
+     1e5 .. 1e8, where one-pass variance formulas lose every digit), judged by every monitor above at that scale (all thresholds are relative); one in eight of the plain
+     float64 ones runs as a LOCKSTEP TWIN of the reference-unit history (`run_twin`): after every step the scaled object must have the same
+     valid set, data / s, dx / K (1 after strip_latcal) and statistics / s as the reference object.
+     Keys `C12/scale:<heights regime>,<dx regime>/<what>-not-scale-invariant[/after:<op>]`.
+  H  fill(NaN) (a legal no-op, own shadow-model branch), fill(0); pad by ZERO samples / to the same shape in every container and keyword
+     form; crop of an already tight array; masks that are all-true, all-false or leave a SINGLE valid sample (drawn by the history alphabet
+     with probability 0.15 and driven by ten explicit sequences `DEGENERATE` on every base, also in other units and under precision 32).
+     crop, mask and remove_piston are now in domain from ONE valid sample on (fits / clip / filter still need three); with NO valid sample
+     statistics, crop and piston removal are out of domain, everything else must keep the object coherent.
+  J  bases `split` (a full NaN row AND a full NaN column inside the bounding box, an all-NaN leading column, an isolated valid sample in the
+     far corner), `split-tall` and `checker` (isolated valid samples only) join the base objects (`split` also in the quick tier).
 """
 import copy
 import itertools
@@ -68,7 +83,10 @@ RULE = ('planned operation sequences over an 18-class alphabet (read-x/y/r/t, re
         'contains at least one state-changing operation; distinct = distinct (base, dx, fully-specified op list). '
         'events list every (cache-population-state x operation) pair executed; argument forms (class E): every accepted form of every '
         'constructor / method argument x base object x data dtype kind x five cache-population states x four canonical continuations, '
-        'against the canonical call; foreign traffic (class F) as a 19th operation class and as a prelude before 1 history in 16')
+        'against the canonical call; foreign traffic (class F) as a 19th operation class and as a prelude before 1 history in 16; unit regimes (class G): '
+        '1 history in 4 with heights * s and lateral unit * K (s, K over 24 decades), 1 in 8 of the float64 ones as a lockstep twin of the reference units; '
+        'special values (classes H, J): fill NaN / 0, pad by zero samples, all-true / all-false / single-valid-sample masks in the alphabet and in ten explicit '
+        'sequences on every base; bases with NaN rows / columns / isolated samples inside the bounding box')
 ASSUMPTIONS = ['deepcopy of an Interferogram is a faithful snapshot of what the user would read (M1\')',
                'the polar form of a grid is (hypot(x,y), arctan2(y,x)); angles compared modulo 2 pi and not at r=0',
                'pad may place the old block anywhere as long as it is moved rigidly (placement itself is C04)',
@@ -90,19 +108,27 @@ ASSUMPTIONS = ['deepcopy of an Interferogram is a faithful snapshot of what the 
                'module above CTOR_FORMS); a form for which the canonical call itself raises or leaves incoherent coordinates is not compared '
                '(skipped and counted: the history workload judges the canonical call)',
                'fill() == fill(0), spike_clip() == spike_clip(3), pad(samples=s) == pad(nan, samples=s), filter(fc) == filter(fc, "lowpass"): '
-               'the documented defaults']
+               'the documented defaults',
+               'a history in other units (heights * s, lateral unit * K, fill / pad values * s, plate scales * K) is the same physical history: every operation is '
+               'homogeneous in the heights and unit-consistent on the current tree; strip_latcal resets dx to 1 in every unit system; twin tolerances 1e-7 of the '
+               'largest magnitude the reference history has seen (data, statistics), 1e-6 (dx); a twin ends (counted) when a rank / validity decision or a '
+               'spike_clip level is borderline in one unit system, or when spike_clip is applied to data that are numerical zeros (<= 1e-6 of the largest '
+               'magnitude the history has seen); float32 data keep (piston + 30) * s <= 1e16 so that their squares stay inside float32',
+               'with no valid sample left the statistics, the bounding box and the mean are undefined (out of domain, counted); a mask may leave any number '
+               'of valid samples; fill(NaN) changes nothing']
 REQUIRED = ['M1.cache-coherence(private)', 'M1\'.user-view(deepcopy)', 'M2.shadow-nan-set', 'M3.piston-zero-mean',
-            'M3.tilt-refit', 'M3.power-refit', 'M3.crop-laws', 'M3.statistics', 'forms.construct', 'forms.operations']
+            'M3.tilt-refit', 'M3.power-refit', 'M3.crop-laws', 'M3.statistics', 'forms.construct', 'forms.operations', 'G.scaled-twin']
 
 OPS = ['read-x', 'read-y', 'read-r', 'read-t', 'crop', 'pad', 'mask', 'fill', 'spike_clip', 'remove_piston',
        'remove_tiptilt', 'remove_power', 'recenter', 'latcal', 'strip_latcal', 'filter', 'copy', 'read-slices', 'foreign']
 READS = {'read-x', 'read-y', 'read-r', 'read-t', 'read-slices', 'foreign'}
 
-BASES_Q = ['sq-even', 'sq-odd-circ', 'nonsq', 'ragged', 'line', 'wide']
-BASES_T = BASES_Q + ['nonsq-circ', 'dropouts', 'col', 'tall', 'sq-big']
+FORM_BASES_Q = ['sq-even', 'sq-odd-circ', 'nonsq', 'ragged', 'line', 'wide']
+BASES_Q = FORM_BASES_Q + ['split']
+BASES_T = BASES_Q + ['nonsq-circ', 'dropouts', 'col', 'tall', 'sq-big', 'split-tall', 'checker']
 BASE_SHAPE = {'sq-even': (10, 10), 'sq-odd-circ': (11, 11), 'nonsq': (8, 11), 'ragged': (11, 8),
               'nonsq-circ': (9, 12), 'dropouts': (12, 12), 'line': (1, 9), 'col': (9, 1), 'wide': (3, 40), 'tall': (40, 3),
-              'sq-big': (24, 24)}
+              'sq-big': (24, 24), 'split': (9, 12), 'split-tall': (13, 8), 'checker': (10, 11)}
 LAYOUTS = ['C', 'C', 'F', 'T', 'strided']
 RO = {}     # measured float32 round-off per monitor (max err / scale), reported as a note
 
@@ -163,6 +189,24 @@ def make_base(name, bseed):
     if name == 'line':
         z[0, 0] = np.nan
         z[0, 5] = np.nan
+    if name == 'split':          # class J: a full NaN row AND a full NaN column INSIDE the bounding box, an all-NaN leading column, and a far
+        z[4, :] = np.nan         # corner whose only valid sample is isolated (the bounding box must still reach it)
+        z[:, 7] = np.nan
+        z[:, 0] = np.nan
+        z[8, :11] = np.nan
+        z[7, 11] = np.nan
+    if name == 'split-tall':     # two NaN rows and one NaN column inside, trailing NaN rows, an isolated valid sample in the first row
+        z[3, :] = np.nan
+        z[8, :] = np.nan
+        z[:, 2] = np.nan
+        z[11:, :] = np.nan
+        z[0, :] = np.nan
+        z[0, 5] = 4.25
+        z[1, 5] = np.nan
+    if name == 'checker':        # isolated valid samples only (every valid sample has invalid 4-neighbours), first / last column invalid
+        z[(i + j) % 2 == 1] = np.nan
+        z[:, 0] = np.nan
+        z[:, -1] = np.nan
     if name == 'dropouts':
         for _ in range(7):
             z[int(rng.integers(1, n0 - 1)), int(rng.integers(1, n1 - 1))] = np.nan
@@ -289,13 +333,24 @@ def draw_variant(op, rng):
         if kind == 'samples@default-value':
             val = 'nan'
         k0, k1 = int(rng.integers(0, 4)), int(rng.integers(1, 4))
+        if rng.random() < 0.12:      # class H: pad by ZERO samples / to the same shape (draws made after the ordinary ones: the other variants keep theirs)
+            kind = ['samples', 'samples2', 'shape2', 'samples2@list', 'shape2@value-kw', 'samples@default-value'][int(rng.integers(6))]
+            k0 = k1 = 0
+            if kind == 'samples@default-value':
+                val = 'nan'
         return f'pad:{kind}:{k0},{k1}:{val}'
     if op == 'mask':
         kind = ['circle', 'random', 'edge'][int(rng.integers(3))]
         # a small pool of seeds per history, so that the SAME mask object is passed again later in the history
-        return f'mask:{kind}:{int(rng.integers(1, 4))}{["", "F", "S", "K"][int(rng.integers(4))]}'
+        out = f'mask:{kind}:{int(rng.integers(1, 4))}{["", "F", "S", "K"][int(rng.integers(4))]}'
+        if rng.random() < 0.15:      # class H / J: all-true, all-false, a single valid sample left
+            out = f'mask:{["all-true", "all-false", "single"][int(rng.integers(3))]}:{int(rng.integers(1, 4))}{["", "F", "K"][int(rng.integers(3))]}'
+        return out
     if op == 'fill':
-        return 'fill:' + ['0', '2.5', '2.5@np32', '0@np64', '0@omitted', '2.5@kw', '2@int', '2.5@0d'][int(rng.integers(8))]
+        out = 'fill:' + ['0', '2.5', '2.5@np32', '0@np64', '0@omitted', '2.5@kw', '2@int', '2.5@0d'][int(rng.integers(8))]
+        if rng.random() < 0.12:      # class H: fill with NaN (a legal no-op)
+            out = 'fill:' + ['nan', 'nan@kw', 'nan@np64'][int(rng.integers(3))]
+        return out
     if op == 'spike_clip':
         return 'spike_clip:' + ['3', '2', '1.5', '2@int', '3@omitted', '2@kw', '1.5@np64', '2@0d'][int(rng.integers(8))]
     if op == 'latcal':
@@ -348,6 +403,10 @@ def make_mask(kind, seed, shape):
         return np.hypot(i - c0, j - c1) <= max(rad, 1.2)
     if kind == 'random':
         return rng.random(shape) > 0.15
+    if kind == 'all-true':
+        return np.ones(shape, dtype=bool)
+    if kind == 'all-false':
+        return np.zeros(shape, dtype=bool)
     m = np.ones(shape, dtype=bool)   # 'edge': drop some leading/trailing rows and columns (asymmetric crop later)
     a, b, c, d = (int(v) for v in rng.integers(0, 3, 4))
     if a + b < n0 - 2:
@@ -367,11 +426,20 @@ class History:
         from prysm.interferogram import Interferogram
         self.ctx = ctx
         self.desc = desc
-        z = make_base(desc['base'], desc['bseed']).astype(desc.get('dtype', 'float64'))
+        # class G: the same object in other units — heights times `scale`, lateral unit times `dxscale`; fill / pad values and plate scales
+        # of the operations are converted with it, so a scaled history is the SAME physical history
+        self.s = float(desc.get('scale', 1.0))
+        self.K = float(desc.get('dxscale', 1.0))
+        # `piston`: a constant (in units of the base data, whose own variation is ~10) added before scaling — |mean| / std of 1e5 .. 1e8
+        z = ((make_base(desc['base'], desc['bseed']) + float(desc.get('piston', 0.0))) * self.s).astype(desc.get('dtype', 'float64'))
         self.prec = int(desc.get('prec', 64))
         self.lowp = self.prec == 32 or desc.get('dtype', 'float64') == 'float32'
         self.rt = 1e-9 if self.prec == 64 else 1e-4            # coordinates are built in the configured precision
-        self.obj = construct(Interferogram, relayout(z, desc.get('layout', 'C')), desc['dx'], desc.get('ctor', 'dx=py'))
+        ctor = desc.get('ctor', 'dx=py')
+        if self.K != 1.0 and ctor in CTOR_FORMS_INTDX:
+            ctor = 'dx=py'
+        self.obj = construct(Interferogram, relayout(z, desc.get('layout', 'C')), desc['dx'] * self.K, ctor)
+        self.borderline = False      # a spike_clip level fell within round-off of a sample (the clipped set is then not comparable between units)
         fin0 = z[np.isfinite(z)]
         self.scale_hi = float(np.abs(fin0).max()) if fin0.size else 1.0     # largest data magnitude this history has seen
         self.populated = set()   # inferred cache population ('xy', 'rt') from the public reads / rebuilding ops of this history
@@ -391,12 +459,18 @@ class History:
         eps = 1.2e-7 if self.lowp else 2.3e-16
         return max(float(scale), eps * self.scale_hi, 1e-300)
 
-    def pooled_mask(self, opv, shape):
+    def pooled_mask(self, opv, shape, valid=None):
         _, kind, seed = opv.split(':')
         lay = seed[-1] if seed[-1] in 'FSK' else ''
         key = (kind, seed, tuple(shape))
         if key not in self.masks:
-            m = make_mask(kind, seed.rstrip('FSK'), shape)
+            if kind == 'single':         # keeps exactly one of the currently valid samples (chosen by the seed)
+                m = np.zeros(shape, dtype=bool)
+                idx = np.flatnonzero(valid.ravel()) if valid is not None else np.arange(0)
+                if idx.size:
+                    m.flat[int(idx[(7 * int(seed.rstrip('FSK')) + 3) % idx.size])] = True
+            else:
+                m = make_mask(kind, seed.rstrip('FSK'), shape)
             self.masks[key] = (np.asfortranarray(m) if lay == 'F' else relayout(m, 'strided') if lay == 'S' else m, m.copy())
         else:
             self.ctx.event('mask.same-object-passed-again')
@@ -481,19 +555,27 @@ class History:
         arg = None
 
         # ---- domain -------------------------------------------------------------------------------------
-        needs_valid = opc in ('crop', 'mask', 'spike_clip', 'remove_piston', 'remove_tiptilt', 'remove_power', 'filter')
+        # fits, clipping and filtering need >= 3 valid samples; crop, mask and piston removal are defined from one valid sample on (class J:
+        # a single valid sample); with NO valid sample the statistics, the bounding box and the mean are undefined (out of domain)
+        needs_valid = opc in ('spike_clip', 'remove_tiptilt', 'remove_power', 'filter')
         if needs_valid and nvalid < 3:
             ctx.skip(f'{opc}: fewer than 3 valid samples')
+            return False
+        if opc in ('crop', 'mask', 'remove_piston') and nvalid < 1:
+            ctx.skip(f'{opc}: no valid sample')
             return False
         if opc == 'filter' and bnan.any():
             ctx.skip('filter: data has NaNs (out of domain)')
             return False
         marg = None
         if opc == 'mask':
-            marg, arg = self.pooled_mask(opv, shape)     # marg: the object prysm gets; arg: pristine copy for the model
-            if int((arg & ~bnan).sum()) < 3:
+            marg, arg = self.pooled_mask(opv, shape, ~bnan)     # marg: the object prysm gets; arg: pristine copy for the model
+            special = opv.split(':')[1] in ('all-true', 'all-false', 'single')
+            if int((arg & ~bnan).sum()) < 3 and not special:
                 ctx.skip('mask: would leave fewer than 3 valid samples')
                 return False
+            if special:
+                ctx.event(f'mask.{opv.split(":")[1]}->{min(int((arg & ~bnan).sum()), 3)}{"+" if int((arg & ~bnan).sum()) >= 3 else ""}-valid-left')
         if opc == 'remove_tiptilt':
             c = copy.deepcopy(o)
             A = np.stack([c.x[~bnan], c.y[~bnan]], axis=1).astype(float)
@@ -526,7 +608,7 @@ class History:
                 _, kind, ks, val = opv.split(':')
                 kind, _, cont = kind.partition('@')
                 k0, k1 = (int(v) for v in ks.split(','))
-                value = float('nan') if val == 'nan' else float(val)
+                value = float('nan') if val == 'nan' else float(val) * self.s
                 if kind == 'samples' and cont == 'default-value':
                     o.pad(samples=k1)                                   # the documented default fill (NaN), omitted
                     arg = (shape[0] + k1, shape[1] + k1)
@@ -553,6 +635,8 @@ class History:
                     o.mask(marg)
             elif opc == 'fill':
                 a_ = scalar_arg(opv.split(':')[1])
+                if self.s != 1.0:
+                    a_ = a_ * self.s
                 arg = float(a_)
                 how = opv.split('@')[-1]
                 o.fill() if how == 'omitted' else o.fill(_with=a_) if how == 'kw' else o.fill(a_)
@@ -563,6 +647,8 @@ class History:
                 o.spike_clip() if how == 'omitted' else o.spike_clip(nsigma=a_) if how == 'kw' else o.spike_clip(a_)
             elif opc == 'latcal':
                 a_ = scalar_arg(opv.split(':')[1])
+                if self.K != 1.0:
+                    a_ = a_ * self.K
                 arg = float(a_)
                 o.latcal(plate_scale=a_) if opv.endswith('@kw') else o.latcal(a_)
             elif opc == 'filter':
@@ -605,6 +691,9 @@ class History:
                 ctx.violation(key + '/nan-set', 'mask(m): invalid set is not old | ~m', desc, step=pos)
             elif not np.array_equal(after[~exp], before[~exp]):
                 ctx.violation(key + '/values', 'mask(m) changed kept samples', desc, step=pos)
+        elif opc == 'fill' and arg != arg:            # fill(NaN): a legal no-op on data and validity
+            if not same(after, before):
+                ctx.violation(key + '/values', 'fill(NaN) changed the data or the set of invalid samples', desc, step=pos)
         elif opc == 'fill':
             if after.shape != shape or anan.any():
                 ctx.violation(key + '/nan-set', 'fill(v) left invalid samples', desc, step=pos, remaining=int(anan.sum()))
@@ -617,6 +706,7 @@ class History:
             band = np.abs(mag - lvl) <= self.tol(1e-9, 1e-4) * self.floor(max(lvl, s['scale']))
             exp = bnan | (mag > lvl)
             if band.any():
+                self.borderline = True
                 ctx.skip('spike_clip: samples within 1e-9 (float32: 1e-4) of the clip level not compared', int(band.sum()))
             if after.shape != shape or not np.array_equal(anan[~band], exp[~band]):
                 ctx.violation(key + '/nan-set', 'spike_clip(k): invalid set is not old | {|z| > k*std(valid)}', desc, step=pos)
@@ -740,7 +830,7 @@ class History:
                 border = np.ones(oshape, dtype=bool)
                 border[a:a + i0, b:b + i1] = False
                 bv = after[border]
-                okb = np.isnan(bv).all() if val == 'nan' else (bv == float(val)).all()
+                okb = np.isnan(bv).all() if val == 'nan' else (bv == np.asarray(float(val) * self.s).astype(after.dtype)).all()
                 if okb:
                     hit = (a, b)
                     break
@@ -954,7 +1044,7 @@ def forms_workload(ctx):
     """Class E: every accepted form of every argument gives the state the canonical call gives (and a coherent one), on every base,
     for several cache-population states before the call and short canonical continuations after it."""
     from prysm.interferogram import Interferogram
-    bases = BASES_Q if ctx.quick else BASES_T
+    bases = FORM_BASES_Q if ctx.quick else BASES_T
     dxs = [1.0, 0.37, 12.5]
     k = -1
     for bi, b, rep in [(bi, b, rep) for rep in range(ctx.pick(1, 9)) for bi, b in enumerate(bases)]:
@@ -1043,6 +1133,133 @@ def forms_workload(ctx):
                                           f'{opn} called as {form} (object {pre}) leaves another state than the canonical call: right after {d1}, after {list(tail)} {d2}, '
                                           f'coordinate problems {[p[0] for p in probs]}', desc)
 
+# ------------------------------------------------------------------------------------------ classes G / H / J (HARDENING3.md)
+# Established on the current tree (/repo @ c2c1d7f) first: every operation is homogeneous of degree one in the heights and consistent under a
+# change of lateral unit (nothing in Interferogram is absolute; the plane fit has columns x, y — both scale with dx — and the power fit works
+# on a normalised grid), fill(NaN) is a no-op, pad by zero samples / to the same shape rebuilds the coordinates and leaves the data alone,
+# a mask may leave a single valid sample or none (then statistics / crop / piston are undefined: out of domain; coordinate reads, pad, fill,
+# recenter, latcal, strip_latcal, mask and copy still work and must keep the object coherent).
+SCALES = [1e-12, 1e-9, 1e-6, 1e6, 1e9, 1e12]
+DXSCALES = [1e-9, 1e-6, 1e-3, 1e3, 1e6, 1e9]
+
+
+def cap_piston(piston, sv, dtype):
+    """float32 data must keep their squares (and the sum of a few thousand of them) inside float32: magnitudes above ~1e16 make rms / std
+    overflow in the data's own type — that is the type's range, not the property.  Such a piston is dropped for float32 data."""
+    if piston and dtype == 'float32' and (piston + 30.0) * sv > 1e16:
+        return 0.0
+    return piston
+
+
+def scale_regime(sv, K):
+    return (('heights-tiny' if sv < 1 else 'heights-huge') if sv != 1 else 'heights-1') + ',' + (('dx-tiny' if K < 1 else 'dx-huge') if K != 1 else 'dx-1')
+
+
+def run_twin(ctx, dref, dsc):
+    """Class G: the reference history and the same physical history in other units (heights * s, lateral unit * K, fill / pad values and
+    plate scales converted) in lockstep.  Each is judged by every monitor of History at its own scale; after every step the scaled object
+    must be the reference object in the other units: same valid set, data / s equal, dx / K equal, statistics / s equal."""
+    from ..util import precision
+    with precision(64):
+        try:
+            A, B = History(ctx, dref), History(ctx, dsc)
+            sv, K = B.s, B.K
+            regime = scale_regime(sv, K)
+            for h in (A, B):
+                h.invariant('construct', -1)
+                h.statistics('construct', -1)
+            Kcur = K        # strip_latcal resets the lateral unit to pixels (dx = 1) in both unit systems; latcal(K * plate scale) restores the ratio
+            for pos, opv in enumerate(dref['ops']):
+                if A.dead or B.dead:
+                    break
+                if op_class(opv) == 'spike_clip':
+                    va = A.obj.data[np.isfinite(A.obj.data)]
+                    if va.size and float(np.abs(va).max()) <= 1e-6 * A.scale_hi:
+                        # the data are what round-off left of an exactly removed term: which of them exceed k * std is decided by that round-off
+                        ctx.skip('scaled twin: spike_clip on numerical zeros (round-off residue of a removed term), twin comparison ended')
+                        break
+                ra, rb = A.step(opv, pos), B.step(opv, pos)
+                if ra != rb:
+                    ctx.skip('scaled twin: a step is in domain in one unit system only (borderline rank / validity decision), twin comparison ended')
+                    break
+                if A.borderline or B.borderline:
+                    ctx.skip('scaled twin: a spike_clip level within round-off of a sample, twin comparison ended')
+                    break
+                if not ra or A.dead or B.dead:
+                    continue
+                opc = op_class(opv)
+                Kcur = 1.0 if opc == 'strip_latcal' else K if opc == 'latcal' else Kcur
+                ctx.observe('G.scaled-twin')
+                da, db = A.obj.data, B.obj.data
+                sc = max(A.scale_hi, 1e-300)
+                what = None
+                if da.shape != db.shape or not np.array_equal(np.isfinite(da), np.isfinite(db)):
+                    what = 'valid-set'
+                else:
+                    fin = np.isfinite(da)
+                    if fin.any() and not float(np.abs(db[fin].astype(float) / sv - da[fin].astype(float)).max()) <= 1e-7 * sc:
+                        what = 'data'
+                    elif not abs(float(B.obj.dx) / Kcur - float(A.obj.dx)) <= 1e-6 * abs(float(A.obj.dx)):     # 1e-6: plate scales also come as float32
+                        what = 'dx'
+                    elif fin.any():
+                        sa = (A.obj.pv, A.obj.rms, A.obj.Sa, A.obj.std)
+                        sb = (B.obj.pv, B.obj.rms, B.obj.Sa, B.obj.std)
+                        if not all(abs(float(v) / sv - float(u)) <= 1e-7 * sc for u, v in zip(sa, sb)):
+                            what = 'statistics'
+                if what:
+                    # the statistics are functions of the data alone: when only they differ no operation is to blame
+                    ctx.violation(f'C12/scale:{regime}/{what}-not-scale-invariant' + ('' if what == 'statistics' else f'/after:{opc}'),
+                                  f'after {opc} the object in other units (heights * {sv:g}, lateral unit * {K:g}) is not the reference object in those units: '
+                                  f'{what} differ', dsc, step=pos, executed=B.executed)
+                    break
+        except Exception as e:      # the MONITOR failed on an object state it cannot handle (never a verdict): counted
+            ctx.skip(f'monitor aborted a scaled-twin history ({type(e).__name__}) - rest of that history not monitored')
+
+
+DEGENERATE = [
+    ['mask:all-false:1', 'read-x', 'read-r', 'pad:samples2:1,2:nan', 'recenter', 'latcal:2.0', 'fill:0', 'crop'],
+    ['read-r', 'mask:all-false:1', 'latcal:0.1', 'read-t', 'pad:shape2:0,0:0', 'strip_latcal', 'fill:2.5', 'remove_piston'],
+    ['mask:all-false:2K', 'copy', 'fill:nan', 'pad:samples:0,0:nan', 'mask:all-true:1', 'read-slices', 'fill:0@omitted', 'crop', 'crop'],
+    ['mask:single:1', 'crop', 'read-x', 'read-t', 'remove_piston', 'pad:samples2:2,1:nan', 'crop', 'recenter', 'latcal:3.3'],
+    ['read-x', 'mask:single:2', 'remove_piston', 'crop', 'crop', 'pad:shape2:1,0:0', 'fill:nan', 'crop'],
+    ['mask:single:3F', 'read-r', 'crop', 'latcal:2.0', 'read-r', 'pad:samples:0,0:1.5', 'mask:all-true:1', 'fill:2.5@kw', 'crop'],
+    ['mask:all-true:1', 'crop', 'crop', 'fill:nan@kw', 'pad:samples2:0,0:nan', 'crop', 'pad:shape2@value-kw:0,0:1.5', 'remove_piston'],
+    ['fill:nan', 'crop', 'pad:samples@default-value:0,0:nan', 'crop', 'fill:0', 'crop', 'pad:samples:0,0:0', 'spike_clip:3', 'crop'],
+    ['crop', 'pad:samples2@list:0,0:nan', 'read-r', 'pad:shape2:0,0:nan', 'crop', 'mask:single:1K', 'crop', 'pad:samples:0,1:nan', 'crop'],
+    ['mask:single:2', 'fill:0', 'crop', 'remove_tiptilt', 'mask:all-false:1', 'fill:1.5@np64', 'crop', 'remove_power'],
+]
+
+
+def special_workload(ctx):
+    """Classes H / J / G: explicit short histories through the special values (fill 0 / NaN, pad by zero samples, crop of an already tight
+    array, mask all-true / all-false / single valid sample) on every base, at the reference scale and in extreme units."""
+    bases = BASES_Q if ctx.quick else BASES_T
+    dxs = [1.0, 0.37, 12.5]
+    k = -1
+    for rep in range(ctx.pick(1, 6)):
+        for bi, b in enumerate(bases):
+            for qi, ops in enumerate(DEGENERATE):
+                k += 1
+                if not ctx.mine(k):
+                    continue
+                cfgs = [(64, 'float64', 1.0, 1.0)]
+                if (k // ctx.nshards) % 2 == 0:
+                    cfgs.append((64, 'float64', SCALES[(k + rep) % 6], DXSCALES[(k // 3 + rep) % 6]))
+                if (k // ctx.nshards) % 3 == 1:
+                    cfgs.insert(0, (32, 'float32', 1.0, 1.0))
+                if (k // ctx.nshards) % 5 == 2:
+                    cfgs.append((64, 'float32', SCALES[(k + 2) % 6], DXSCALES[(k + 1) % 6]))
+                for prec, dtype, sv, K in cfgs:
+                    desc = {'class': f'special|{b}|seq{qi}|p{prec}/{dtype}|{scale_regime(sv, K)}', 'base': b, 'bseed': ctx.seed + 3 * rep, 'dx': dxs[(bi + qi + rep) % 3],
+                            'ops': ops, 'layout': LAYOUTS[(k + rep) % len(LAYOUTS)], 'prec': prec, 'dtype': dtype, 'ctor': 'dx=py'}
+                    if (k // ctx.nshards) % 4 == 3 and cap_piston([1e6, 1e9][(k // ctx.nshards // 4) % 2], sv, dtype):
+                        desc['piston'] = [1e6, 1e9][(k // ctx.nshards // 4) % 2]
+                    if sv != 1.0 or K != 1.0:
+                        desc['scale'], desc['dxscale'] = sv, K
+                    ctx.case(desc)
+                    History(ctx, desc).run()
+
+
 # ------------------------------------------------------------------------------------------ workload
 def plan_sequences(ctx):
     """Global (shard-independent) list of planned op-class sequences: exhaustive to a depth, then random, deduplicated."""
@@ -1118,9 +1335,26 @@ def _run(ctx):
             ctor = cforms[(hcount // 2) % len(cforms)] if hcount % 2 else 'dx=py'           # class E: constructor argument forms
             if hcount % 16 == 7:
                 foreign_traffic(ctx, list(BASE_SHAPE[b]), heavy=(hcount % 64 == 7))        # class F prelude, same axis lengths
-            for prec, dtype in CONFIGS.get(hcount % 6, [(64, 'float64')]):
+            # class G: one history in four runs in other units (heights * s, lateral unit * K); one in eight of the plain float64 ones as a
+            # lockstep twin of the reference-unit history (the scale laws), the others on their own (the ordinary monitors at that scale)
+            sv, K = (SCALES[(hcount // 4) % 6], DXSCALES[(hcount // 24 + hcount // 4) % 6]) if hcount % 4 == 3 else (1.0, 1.0)
+            piston = [0.0, 0.0, 1e6, 0.0, 1e9][(hcount // 4) % 5] if hcount % 4 == 3 else 0.0
+            cfgs = CONFIGS.get(hcount % 6, [(64, 'float64')])
+            for prec, dtype in cfgs:
                 desc = {'class': f'{b}|len={len(s)}|p{prec}/{dtype}', 'base': b, 'bseed': ctx.seed, 'dx': dx, 'ops': ops, 'layout': layout,
                         'prec': prec, 'dtype': dtype, 'ctor': ctor}
+                if cap_piston(piston, sv, dtype):
+                    desc['piston'] = piston
+                    desc['class'] += '|piston'
+                if sv != 1.0 and hcount % 8 == 3 and cfgs == [(64, 'float64')]:
+                    dsc = dict(desc, scale=sv, dxscale=K, **{'class': desc['class'] + '|' + scale_regime(sv, K) + '|twin'})
+                    ctx.case(desc, nontrivial=any(op_class(o) not in READS for o in ops))
+                    ctx.case(dsc, nontrivial=any(op_class(o) not in READS for o in ops))
+                    run_twin(ctx, desc, dsc)
+                    continue
+                if sv != 1.0:
+                    desc.update(scale=sv, dxscale=K)
+                    desc['class'] += '|' + scale_regime(sv, K)
                 ctx.case(desc, nontrivial=any(op_class(o) not in READS for o in ops))
                 h = History(ctx, desc)
                 full = h.run()
@@ -1141,6 +1375,7 @@ def _run(ctx):
 
 def run(ctx):
     _run(ctx)
+    special_workload(ctx)
     forms_workload(ctx)
 
 
